@@ -44,6 +44,7 @@ def _run(V, prop, steps, nreq, factory_preempt, race=None):
         c.close = close.__get__(c)
         return c
     world.cluster.connection_factory = factory
+    current = [None]        # kind of the history event being executed (the thread that is pre-empted)
     # ---- sync-point pre-emption (one per history): another thread runs at a lock acquire/release of the named function
     if race == 'timeout-response':
         # the event loop delivers the late response while ResponseFuture._on_timeout is between popping the request
@@ -70,8 +71,9 @@ def _run(V, prop, steps, nreq, factory_preempt, race=None):
         # connection or shut the pool down
         def other_thread(function, name, phase):
             ev = []
-            for (c, stream, tag, msg) in world.pending():
-                ev.append(('respond', c, stream, tag))
+            if current[0] != 'respond':         # (the event-loop thread delivers one response at a time)
+                for (c, stream, tag, msg) in world.pending():
+                    ev.append(('respond', c, stream, tag))
             for t in world.timers():
                 ev.append(('timer', t))
             if not pool.is_shutdown:
@@ -87,7 +89,7 @@ def _run(V, prop, steps, nreq, factory_preempt, race=None):
             else:
                 pool.shutdown()
         pre = kit.Preempter(V, None, other_thread, only_unlocked=True,
-                            enabled=lambda: bool(world.pending() or world.timers() or not pool.is_shutdown))
+                            enabled=lambda: bool((world.pending() and current[0] != 'respond') or world.timers() or not pool.is_shutdown))
         pool._lock = kit.SchedLock('pool._lock', pre)
         pool._stream_available_condition = kit.VirtualCondition(pool._lock)
         def arm(c):
@@ -125,6 +127,7 @@ def _run(V, prop, steps, nreq, factory_preempt, race=None):
             ev.append(('borrow',))
         e = ev[V.choice('ev%d' % step, len(ev))]
         V.tag('e%d' % step, e[0])
+        current[0] = e[0]
         if e[0] == 'send':
             ntag[0] += 1
             was_shut = pool.is_shutdown
@@ -156,8 +159,10 @@ def _run(V, prop, steps, nreq, factory_preempt, race=None):
         p = world.pending()
         if p:
             c, stream, tag, msg = p[0]
+            current[0] = 'respond'
             world.respond(c, stream, world.rows(tag))
         elif world.tasks():
+            current[0] = 'task'
             world.executor.run_one(0)
         else:
             break
